@@ -38,7 +38,6 @@ Proof. exact phaseA_halt_writes_nothing. Qed.
 
 Theorem C15_no_garbage_written :
   forall (flt : option (nat * fkind)) (c : config) (news olds : list nat) (g : nat),
-  (c_fmt c = FGarbage -> no_fail flt) ->
   ~ In (g, New Garb) (disk (final (write_phase flt c (init c news olds)))).
 Proof. exact no_garbage_written. Qed.
 
@@ -59,7 +58,6 @@ Proof. exact format_failure_counted. Qed.
 
 Theorem C15_format_failure_degrades :
   forall (flt : option (nat * fkind)) (c : config) (news olds : list nat) (n : nat),
-  c_fmt c <> FGarbage ->
   flt = Some (n, Fail) ->
   nth_error (trace (final (write_phase flt c (init c news olds)))) n = Some SFormat ->
   halted (write_phase flt c (init c news olds)) = None /\
@@ -78,10 +76,24 @@ Theorem C15_tmp_only_after_interruption :
   end.
 Proof. exact tmp_only_after_interruption. Qed.
 
-(* the premise of C15_no_garbage_written is needed *)
-Theorem C15_garbage_double_fault_refuted :
-  exists (flt : option (nat * fkind)) (c : config), In (0, New Garb) (disk (final (write_phase flt c (init c [] [])))).
-Proof. exact garbage_double_fault_refuted. Qed.
+(* the configuration for which the pinned tree wrote unparsable formatter output (a formatter that returns it and fails once during phase A) is
+   repaired: unformatted code, run completed, problem reported *)
+Theorem C15_garbage_double_fault_repaired :
+  let c := {| c_enforce := true; c_fmt := FGarbage; c_files := [{| f_id := 0; f_clean := true; f_import := false; f_exts := [] |}] |} in
+  let r := write_phase (Some (1, Fail)) c (init c [] []) in
+  disk (final r) = [(0, New Raw)] /\ halted r = None /\ reported (final r) = true.
+Proof. exact garbage_double_fault_repaired. Qed.
+
+(* a formatter that misbehaves on every call (always fails, or always prints with exit status 0 something that is not the formatted code) and no
+   other fault: the run completes, every changed file gets the complete unformatted new content, and the problem is reported *)
+Theorem C15_bad_formatter_degrades :
+  forall (flt : option (nat * fkind)) (c : config) (news olds : list nat),
+  flt = None -> c_fmt c <> FOk ->
+  halted (write_phase flt c (init c news olds)) = None /\
+  (forall f : file, In f (c_files c) -> lookup (f_id f) (disk (final (write_phase flt c (init c news olds)))) = Some (New Raw)) /\
+  (forall n : nat, nth_error (trace (final (write_phase flt c (init c news olds)))) n = Some SFormat ->
+   reported (final (write_phase flt c (init c news olds))) = true).
+Proof. exact bad_formatter_degrades. Qed.
 
 Print Assumptions C15_no_torn_file.
 Print Assumptions C15_no_dangling_external.
@@ -92,4 +104,5 @@ Print Assumptions C15_completed_all_new.
 Print Assumptions C15_format_failure_counted.
 Print Assumptions C15_format_failure_degrades.
 Print Assumptions C15_tmp_only_after_interruption.
-Print Assumptions C15_garbage_double_fault_refuted.
+Print Assumptions C15_garbage_double_fault_repaired.
+Print Assumptions C15_bad_formatter_degrades.
